@@ -1,0 +1,8 @@
+//go:build !verif
+
+package npm
+
+import "context"
+
+// verifTreeHook is a no-op unless built with the "verif" tag.
+func verifTreeHook(ctx context.Context, root *treeNode) {}
